@@ -382,22 +382,20 @@ def translate_expression(expr, env: Env) -> TExp:  # noqa: C901
             if len(args) != len(def_f[1]):
                 raise TypeErrorException(args, def_f[1])
 
+            def flat(v):
+                if isinstance(v, List):
+                    return [x for el in v for x in flat(el)]
+                return [v]
+
+            # formal bit k <- actual bit k, for every formal, simultaneously
             subs = {}
             for a, fa in zip(args, def_f[1]):
-                if isinstance(a[1], List):
-                    for i in range(len(a[1])):  # type: ignore
-                        index = ".".join(a[1][i].name.split(".")[1:])  # type: ignore
-                        if index == "":
-                            index = f"{i}"
-
-                        subs[f"{fa.name}.{index}"] = a[1][i]  # type: ignore
-
-                else:
-                    subs[fa.name] = a[1]
+                for fbit, abit in zip(fa.bitvec, flat(a[1])):
+                    subs[Symbol(fbit)] = abit
 
             n_exps = []
             for s, e in def_f[3]:
-                n_exps.append((s, e.subs(subs, simultaneus=True)))
+                n_exps.append((s, e.xreplace(subs)))
 
             _ret = list(map(lambda se: se[1], n_exps))
 
